@@ -49,7 +49,7 @@ CONFIG = dict(
                   "sys._current_frames() order, module names) to M_Slice.world; f_back is assumed acyclic (CPython)"],
     assumptions=["CPython (sys.implementation.name == 'cpython'); the PyPy branches are not modelled",
                  "frames are pairwise distinct objects (NoDup) and the stack does not change during one extraction"],
-    unproved_legs=["TypeError argument checks of extract_since/extract_until are not modelled"],
+    unproved_legs=[],
     explanation=("Findings F18 (limit with outer on another thread kept the inner side) and F19 (never-started parent "
                  "greenlet cut the stack) were found by this check and are fixed in /repo (cc1578e, 048785c); both shapes are "
                  "part of the generated inputs and of the direct oracle, so a recurrence is a VIOLATION."),
@@ -169,12 +169,23 @@ def _ctx_class():
             elif api == "since":
                 for fo, io in A:
                     qs.append((ss.extract_since, (fo,), {"with_contexts": False}, ["since", io]))
+                # untyped arguments: the isinstance check of extract_since (a frame or None, nothing else)
+                for fo, io in A[:2]:
+                    qs.append((ss.extract_since, (fo,), {"with_contexts": False}, ["sincev", ["none"] if fo is None else ["frame", io]]))
+                for val, tag in ((1, ["int", 1]), (True, ["bool", True]), ("x", ["other"]), (2.5, ["other"]), (object(), ["other"])):
+                    qs.append((ss.extract_since, (val,), {"with_contexts": False}, ["sincev", tag]))
             else:
                 for fi, ii in A[1:]:
                     for l in L:
                         qs.append((ss.extract_until, (fi,), {"limit": l, "with_contexts": False}, ["untiln", ii, l]))
                     for fl, il in A[1:]:
                         qs.append((ss.extract_until, (fi,), {"limit": fl, "with_contexts": False}, ["untilf", ii, il]))
+                    # untyped limits: frame | int (bool included) | None, anything else is a TypeError
+                    for val, tag in ((None, ["none"]), (2, ["int", 2]), (True, ["bool", True]), (False, ["bool", False]),
+                                     ("3", ["other"]), (2.0, ["other"]), ([1], ["other"])):
+                        qs.append((ss.extract_until, (fi,), {"limit": val, "with_contexts": False}, ["untilv", ii, tag]))
+                    fl, il = A[-1]
+                    qs.append((ss.extract_until, (fi,), {"limit": fl, "with_contexts": False}, ["untilv", ii, ["frame", il]]))
             key = "%s|%s|%s" % (self.desc["chain"], api, self.desc["base"])
             self.queries = stackgen.select(qs, self.desc.get("sel"), key)
 
@@ -345,7 +356,23 @@ def _api(q):
         return "ASince %s" % _onat(q[1])
     if q[0] == "untiln":
         return "AUntilN %d %s" % (q[1], _oz(q[2]))
+    if q[0] == "sincev":
+        return "ASinceV %s" % _pyarg(q[1])
+    if q[0] == "untilv":
+        return "AUntilV %d %s" % (q[1], _pyarg(q[2]))
     return "AUntilF %d %d" % (q[1], q[2])
+
+
+def _pyarg(t):
+    if t[0] == "none":
+        return "PNone"
+    if t[0] == "int":
+        return "(PInt %s)" % cZ(t[1])
+    if t[0] == "bool":
+        return "(PBool %s)" % cbool(t[1])
+    if t[0] == "frame":
+        return "(PFrame %d)" % t[1]
+    return "POther"
 
 
 def _res(r):
@@ -357,7 +384,7 @@ def _res(r):
     if r[0] == "A":
         return "AOk SAssert" if not r[1] else BOGUS
     if r[0] == "R":
-        return "ARaised" if r[1] == "RuntimeError" else BOGUS
+        return "ARaised" if r[1] == "RuntimeError" else ("ATypeError" if r[1] == "TypeError" else BOGUS)
     return BOGUS
 
 
